@@ -136,22 +136,26 @@ def run(ck, prop, tier, rnd, with_models=True):
     if not r.ok:
         raise Broken("Trace_Copy: %s\n%s" % (r.violation, r.out[-1500:]))
     ck.add_tlc("Trace_Copy (real copies replayed on CopyImpl)", r, "%d executions" % len(cases)); ck.traces += len(cases)
-    mism = sorted({int(x) for x in re.findall(r'^<<"MISMATCH", (\d+)>>', r.out, re.M)})
+    drift = sorted({int(x) for x in re.findall(r'^<<"MISMATCH", (\d+)>>', r.out, re.M)})
+    mism = sorted({int(x) for x in re.findall(r'^<<"PROPVIOL", (\d+)>>', r.out, re.M)})
+    ck.extra["copyimpl_cases_differing_from_model"] = len(drift)
+    if len(drift) > len(mism):
+        ck.notes.append("%d real copies differ from CopyImpl without breaking a sentence of C08 (specification drift of the implementation-shaped model)" % (len(drift) - len(mism)))
     for c in mism[:12]:
         q = owners[c - 1]; cid, apath, tpath, hoff, cells, old, fam_q = meta[q]
         tl, si, sl, n, bad, vi = fam_q
         ka = os.path.join(common.REPLAY, "%s-%s.A" % (prop, cid)); kt = os.path.join(common.REPLAY, "%s-%s.T" % (prop, cid))
         shutil.copy(apath, ka)
         open(kt, "wb").write(open(tpath, "rb").read()[:hoff] + old)
-        ck.violation("zck_copy_chunks differs from CopyImpl (whose invariants are the property's sentences): case %s observed %s" %
+        ck.violation("zck_copy_chunks breaks a sentence of C08 (Trace_Copy!ObservedOk; the model CopyImpl, started from the same state, keeps them): case %s observed %s" %
                      (json.dumps(fam_q), json.dumps({x: cases[c - 1][x] for x in ("vec", "cls", "outside")})), scripts[q].replace(apath, ka).replace(tpath, kt))
-    if not mism and cases:
+    if not mism and not drift and cases:
         neg = [dict(x) for x in cases[:40]]
         j = next((i for i, x in enumerate(neg) if any(t > 0 for t in x["tlens"])), 0)
         neg[j]["vec"] = [1 - v if v in (0, 1) else 1 for v in neg[j]["vec"]]
         pn = os.path.join(wd, "neg.ndjson"); common.write_ndjson(pn, neg)
         rn = common.tlc("Trace_Copy", "Trace_Copy.cfg", workers=1, env={"TRACE": pn}, timeout=600)
-        if '"MISMATCH"' not in rn.out:
+        if '"PROPVIOL"' not in rn.out and '"MISMATCH"' not in rn.out:
             raise Broken("Trace_Copy negative control: a corrupted validity vector was accepted")
     ck.extra["copyimpl_cases_compared"] = len(cases); ck.extra["copyimpl_cases_not_comparable"] = skipped
     shutil.rmtree(wd, ignore_errors=True)
